@@ -6,6 +6,7 @@ import (
 	"bytes"
 	"fmt"
 	"io"
+	"strings"
 
 	"github.com/biogo/biogo/alphabet"
 	"github.com/biogo/biogo/io/seqio"
@@ -104,9 +105,95 @@ func Back(s seq.Sequence, withQ bool) Rec {
 	return r
 }
 
+// Companion is a second reader of the same format but another configuration (another encoding, other
+// line lengths) that is advanced in lock step with the reader under test: two readers alive at once
+// must not disturb each other.
+type Companion struct {
+	rd   seqio.Reader
+	want []Rec
+	got  []seq.Sequence
+	done bool
+	err  error
+}
+
+var companionFasta = func() (string, []Rec) {
+	long := Fill("acgtn", 5000)
+	text := ">c1 long line\n" + long + "\n>c2\nacg\ntac\ngt\n>c3 last one\nttgaca\n"
+	return text, []Rec{{Name: "c1", Desc: "long line", Letters: long}, {Name: "c2", Letters: "acgtacgt"}, {Name: "c3", Desc: "last one", Letters: "ttgaca"}}
+}
+
+var companionFastq = func() (string, []Rec) {
+	quals := [][]byte{[]byte(";<=>?@AB"), []byte("hgfedcba"), []byte("@@")}
+	lets := []string{"acgtacgt", "ttgacaga", "gc"}
+	var sb strings.Builder
+	var recs []Rec
+	for i, l := range lets {
+		fmt.Fprintf(&sb, "@s%d solexa\n%s\n+\n%s\n", i, l, quals[i])
+		r := Rec{Name: fmt.Sprint("s", i), Desc: "solexa", Letters: l}
+		for _, b := range quals[i] {
+			r.Quals = append(r.Quals, int(alphabet.Solexa.DecodeToQphred(b)))
+		}
+		recs = append(recs, r)
+	}
+	return sb.String(), recs
+}
+
+// NewCompanion returns a companion for format "fasta" or "fastq" (a Solexa-encoded file).
+func NewCompanion(format string) *Companion {
+	if format == "fasta" {
+		text, want := companionFasta()
+		return &Companion{rd: fasta.NewReader(strings.NewReader(text), linear.NewSeq("", nil, alphabet.DNA)), want: want}
+	}
+	text, want := companionFastq()
+	return &Companion{rd: fastq.NewReader(strings.NewReader(text), linear.NewQSeq("", nil, alphabet.DNA, alphabet.Solexa)), want: want}
+}
+
+// Step makes one Read on the companion (nothing once it has ended).
+func (c *Companion) Step() {
+	if c == nil || c.done {
+		return
+	}
+	s, err := c.rd.Read()
+	if err != nil {
+		c.done = true
+		if err != io.EOF {
+			c.err = err
+		}
+		return
+	}
+	c.got = append(c.got, s)
+}
+
+// Verdict drains the companion and reports how what it read differs from its own file ("" = nothing).
+func (c *Companion) Verdict() string {
+	if c == nil {
+		return ""
+	}
+	for i := 0; i < len(c.want)+2 && !c.done; i++ {
+		c.Step()
+	}
+	if c.err != nil {
+		return "the companion reader failed: " + c.err.Error()
+	}
+	var got []Rec
+	for _, s := range c.got {
+		_, q := s.(*linear.QSeq)
+		got = append(got, Back(s, q))
+	}
+	if msg := Same(got, c.want, len(c.want) > 0 && c.want[0].Quals != nil); msg != "" {
+		return "a second reader, advanced alternately, read its own file wrongly: " + msg
+	}
+	return ""
+}
+
 // ReadAll reads every record; it stops at the first error (io.EOF is success)
 // and never makes more than limit calls.
 func ReadAll(rd seqio.Reader, withQ bool, limit int) (recs []Rec, calls int, err error) {
+	return ReadAllWith(rd, nil, withQ, limit)
+}
+
+// ReadAllWith is ReadAll with a companion reader stepped before every Read of rd.
+func ReadAllWith(rd seqio.Reader, comp *Companion, withQ bool, limit int) (recs []Rec, calls int, err error) {
 	// The records are looked at only after the last Read returned: a caller that
 	// collects a file must not find an earlier record changed by a later Read.
 	var seqs []seq.Sequence
@@ -117,6 +204,7 @@ func ReadAll(rd seqio.Reader, withQ bool, limit int) (recs []Rec, calls int, err
 	}()
 	for calls < limit {
 		calls++
+		comp.Step()
 		s, e := rd.Read()
 		if e != nil {
 			if e == io.EOF {
